@@ -3,8 +3,8 @@
 import json, os, subprocess
 ROOT = os.path.dirname(os.path.dirname(os.path.abspath(__file__)))
 checks = {f[:-5]: json.load(open(os.path.join(ROOT, "checks.d", f))) for f in sorted(os.listdir(os.path.join(ROOT, "checks.d"))) if f.endswith(".json")}
-tracked = set(subprocess.run(["git", "-C", ROOT, "ls-files", "checks.d"], capture_output=True, text=True).stdout.split())
-checks = {k: v for k, v in checks.items() if "checks.d/%s.json" % k in tracked}  # only committed checks are claimed
+claimed = set(open(os.path.join(ROOT, "claimed.txt")).read().split())
+checks = {k: v for k, v in checks.items() if k in claimed}  # only checks I have run and reviewed are claimed
 props = [json.loads(l) for l in open(os.path.join(ROOT, "properties.jsonl"))]
 na = json.load(open(os.path.join(ROOT, "not_applicable.json"))) if os.path.exists(os.path.join(ROOT, "not_applicable.json")) else {}
 hooks_commits = subprocess.run(["git", "-C", "/repo", "log", "--format=%h", "--grep=^verif hooks"], capture_output=True, text=True).stdout.split()
